@@ -183,6 +183,80 @@ func checkSelect(doc *trustpolicy.OCIDocument, owner map[string]string, wildcard
 	return "exact", "", ""
 }
 
+// enumAmbiguous: selection is only well defined because validation guarantees that every scope (and the
+// wildcard scope) belongs to one statement. Every document of the valid grammar is made ambiguous in every
+// possible way - a scope of one statement copied into another one (adjacent or not), a second wildcard
+// statement - and must then be refused by Validate and by the verifier constructor.
+func enumAmbiguous(r *hx.Run) {
+	scopes := scopesAll[:5]
+	var specs []docSpec
+	var rec func(i int, a []int, maxk int)
+	rec = func(i int, a []int, maxk int) {
+		if i == len(scopes) {
+			if maxk >= 1 {
+				specs = append(specs, docSpec{Assign: append([]int(nil), a...), Wildcard: true}, docSpec{Assign: append([]int(nil), a...), Wildcard: false})
+			}
+			return
+		}
+		for k := 0; k <= maxk+1 && k <= 3; k++ {
+			nm := maxk
+			if k > maxk {
+				nm = k
+			}
+			rec(i+1, append(a, k), nm)
+		}
+	}
+	rec(0, nil, 0)
+	n := 0
+	for _, sp := range specs {
+		base, _ := buildDoc(scopes, sp)
+		if base.Validate() != nil {
+			continue
+		}
+		var variants []*trustpolicy.OCIDocument
+		for i := range base.TrustPolicies {
+			for j := range base.TrustPolicies {
+				if i == j {
+					continue
+				}
+				src, dst := base.TrustPolicies[i], base.TrustPolicies[j]
+				if src.RegistryScopes[0] == "*" {
+					if dst.RegistryScopes[0] == "*" {
+						continue
+					}
+					// a second wildcard statement in place of statement j
+					d := deepCopyDoc(base)
+					d.TrustPolicies[j].RegistryScopes = []string{"*"}
+					variants = append(variants, d)
+					continue
+				}
+				if dst.RegistryScopes[0] == "*" {
+					continue // a wildcard scope must stand alone: another rule
+				}
+				d := deepCopyDoc(base)
+				d.TrustPolicies[j].RegistryScopes = append(append([]string(nil), dst.RegistryScopes...), src.RegistryScopes[0])
+				variants = append(variants, d)
+			}
+		}
+		for _, d := range variants {
+			n++
+			r.Eval(1)
+			b, _ := json.Marshal(d)
+			if err := d.Validate(); err == nil {
+				r.Violation("oci-ambiguous/document-with-a-scope-in-two-statements-accepted", "Validate accepted a document in which one scope (or the wildcard scope) belongs to two statements, selection is then order dependent: "+string(b), histCase{"oci-ambiguous", []string{string(b)}})
+				continue
+			}
+			if _, err := verifier.NewVerifierWithOptions(mocks.NewTrustStore(), verifier.VerifierOptions{OCITrustPolicy: d}); err == nil {
+				r.Violation("oci-ambiguous/verifier-constructed-with-ambiguous-document", string(b), histCase{"oci-ambiguous", []string{string(b)}})
+				continue
+			}
+			r.Outcome("oci-ambiguous:refused")
+			r.Nontrivial("amb|" + string(b))
+		}
+	}
+	r.Extra["ambiguous_documents"] = n
+}
+
 func enumOCI(r *hx.Run) {
 	scopes := scopesAll
 	maxStmts := 3
@@ -777,6 +851,7 @@ func main() {
 	enumHistories(r)
 	enumBlob(r)
 	enumE2E(r)
+	enumAmbiguous(r)
 	_ = sort.Strings
 	r.Finish()
 }
